@@ -3,4 +3,7 @@
 #include <config.h>
 #include <libast.h>
 extern spif_charptr_t libast_program_name, libast_program_version;
+/* release a raw pointer handed out by the library (substr_to_ptr, to_array, ...) the way library code would */
+void *shim_free(void *p);
+#define LIB_FREE(p) ((void) shim_free(p))
 #endif
